@@ -13,13 +13,13 @@ Local Open Scope Z_scope.
 (* ------------------------------------------------------------------ *)
 (** * All closure instances of a value *)
 
-Inductive node := NItem (ci : citem) | NHeld (a : N) (ci : citem).
+Inductive node := NItem (ci : citem) | NHeld (a : N) (ci : citem) | NVal (r : ret).
 
 Definition lflat (f : hval -> list node) : list (N * hval) -> list node :=
   fix go l := match l with [] => [] | p :: l' => (let (_, v) := p in f v) ++ go l' end.
 
 Fixpoint vnodes (v : hval) : list node :=
-  match v with HRet r => rnodes r | _ => [] end
+  match v with HRet r => NVal r :: rnodes r | _ => [] end
 with rnodes (r : ret) : list node :=
   match r with Ret _ k => knodes k end
 with knodes (k : rkind) : list node :=
@@ -68,8 +68,12 @@ Definition iwf (s : st) (ci : citem) : Prop :=
 Definition tgt_is (ci : citem) (a : N) : Prop :=
   match ci_kind ci with KMeth a' _ _ => a' = a | _ => False end /\ ci_sq ci = None.
 
+(* a Ret that is a value (held in a handle, captured ...) was made by the program: never a notifier *)
+Definition user_ret (r : ret) : Prop :=
+  match r with Ret _ k => match k with RKClos _ _ | RKTo _ _ | RKSomeTo _ _ => True | _ => False end end.
+
 Definition nwf (s : st) (n : node) : Prop :=
-  match n with NItem ci => iwf s ci | NHeld a ci => tgt_is ci a end.
+  match n with NItem ci => iwf s ci | NHeld a ci => tgt_is ci a | NVal r => user_ret r end.
 
 (* later state: uids only grow, the trace only grows, and the target events added are about uids that were not
    handed out before *)
@@ -750,14 +754,14 @@ Proof.
       intros E. eapply res_bind; [| | |exact E].
       * eapply sle_trans; [apply sle_same; eauto | se].
       * qe; auto.
-      * unfold vwf. simpl. eapply nsf_mono; [|exact L1]. eapply sle_trans; [apply sle_same; eauto | se].
+      * unfold vwf, nsf. simpl. constructor; [exact I|]. eapply nsf_mono; [|exact L1]. eapply sle_trans; [apply sle_same; eauto | se].
     + destruct (lookup s ht) as [v|]; [|apply res_bad; auto]. destruct (handle_actor v) as [a|]; [|apply res_bad; auto].
       destruct (inst_call c _ (ref_clone s a)) as [ci s2] eqn:I.
       destruct (inst_call_wf _ _ _ _ _ (Q_ref_clone _ a H) I) as (H2 & L2 & C2 & K2 & Q2).
       intros E. eapply res_bind; [| | |exact E].
       * eapply sle_trans; [apply sle_ref_clone|]. eapply sle_trans; [exact L2|]. eapply sle_trans; se.
       * qe; qe; auto.
-      * unfold vwf, nsf. simpl. constructor; [simpl; unfold tgt_is; rewrite K2; split; [reflexivity | exact Q2]|].
+      * unfold vwf, nsf. simpl. constructor; [exact Logic.I|]. constructor; [simpl; unfold tgt_is; rewrite K2; split; [reflexivity | exact Q2]|].
         eapply nsf_mono; [|exact C2]. eapply sle_trans; se.
     + destruct (lookup s ht) as [v|]; [|apply res_bad; auto]. destruct (handle_actor v) as [a|]; [|apply res_bad; auto].
       destruct (inst_call c _ (ref_clone s a)) as [ci s2] eqn:I.
@@ -765,13 +769,13 @@ Proof.
       intros E. eapply res_bind; [| | |exact E].
       * eapply sle_trans; [apply sle_ref_clone|]. eapply sle_trans; [exact L2|]. eapply sle_trans; se.
       * qe; qe; auto.
-      * unfold vwf, nsf. simpl. constructor; [simpl; unfold tgt_is; rewrite K2; split; [reflexivity | exact Q2]|].
+      * unfold vwf, nsf. simpl. constructor; [exact Logic.I|]. constructor; [simpl; unfold tgt_is; rewrite K2; split; [reflexivity | exact Q2]|].
         eapply nsf_mono; [|exact C2]. eapply sle_trans; se.
   - (* ARetSend *) destruct (lookup s h) as [[a|a|a|[rid rk]|f|t sc]|] eqn:LK; try (apply res_bad; auto).
     destruct (take s h) as [o s1] eqn:T. destruct (take_wf _ _ _ _ H T) as (H1 & N1 & T1 & _).
     intros E; inversion E; subst. split; [qe; auto|]. split; [eapply sle_trans; [apply sle_same; eauto | se]|].
     constructor; [|constructor]. unfold mwf; simpl.
-    eapply nsf_mono; [|exact (lookup_wf _ _ _ H LK)]. eapply sle_trans; [apply sle_same; eauto | se].
+    eapply nsf_mono; [|exact (Forall_inv_tail (lookup_wf _ _ _ H LK))]. eapply sle_trans; [apply sle_same; eauto | se].
   - (* ANewFwd *) destruct (aget (fwds s) f); [apply res_bad; auto|]. destruct k as [body|ht c].
     + intros E. eapply res_bind; [ | | | exact E]; [| | apply vwf_trivial; reflexivity].
       * eapply sle_trans; [|se]. apply sle_same; reflexivity.
@@ -997,7 +1001,7 @@ Proof.
   - intros E; inversion E; subst. split; auto. split; [apply sle_refl | apply kwf_one_plain; reflexivity].
   - intros E; inversion E; subst. split; auto. split; [apply sle_refl | apply kwf_one_plain; reflexivity].
   - intros E; inversion E; subst. split; auto. split; [apply sle_refl | apply kwf_one_plain; reflexivity].
-  - intros E; inversion E; subst. split; auto. split; [apply sle_refl|]. constructor; [exact V | constructor].
+  - intros E; inversion E; subst. split; auto. split; [apply sle_refl|]. constructor; [exact (Forall_inv_tail V) | constructor].
   - destruct (aget (fwds s) f) as [[rc k tg]|].
     + destruct (minrc_drop rc) as [[v' z]|].
       * destruct z; [destruct k; [|destruct tg]|]; intros E; inversion E; subst.
